@@ -9,7 +9,11 @@ import Bng.Model.Index
     create <pN|-> <mK|-> <aK|->     => ok pN | conflict | error      (`-` id: the code generates the id)
     update pN <mK|-> <aK|->         => ok | notfound                 (state.Store only)
     assign pN aK                    => ok | notfound                 (subscriber.Manager only)
-    delete pN                       => ok | notfound
+    delete pN                       => ok | notfound | busy          (busy: "already terminating", subscriber.Manager)
+    tpark pN                        => parked | ok | notfound | busy (subscriber.Manager: TerminateSession started and
+                                        held inside allocator.ReleaseIPv4, i.e. between its two critical sections;
+                                        `ok`: no address to release, the call ran through)
+    tresume pN                      => ok | noref                    (let the parked call finish)
     get pN                          => pN <mK|-> <aK|-> | none
     bymac mK                        => pN <mK|-> <aK|-> | none | dangling
     byip aK                         => pN <mK|-> <aK|-> | none | dangling
@@ -45,6 +49,9 @@ def showObs : Obs → String
   | .notfound => "notfound"
   | .none => "none"
   | .dangling => "dangling"
+  | .parked => "parked"
+  | .busy => "busy"
+  | .noref => "noref"
   | .found id r => showRec id r
   | .ids l => if l.isEmpty then "-" else ",".intercalate (l.map fun id => s!"p{id}")
   | .badop => "badop"
@@ -86,6 +93,8 @@ def parseOp (toks : List String) : Option Op :=
       let a ← parseTagged 'a' a
       pure (.setKey id true a)
   | ["delete", id] => (parseTagged 'p' id).map .delete
+  | ["tpark", id] => (parseTagged 'p' id).map .tpark
+  | ["tresume", id] => (parseTagged 'p' id).map .tresume
   | ["get", id] => (parseTagged 'p' id).map .get
   | ["bymac", m] => (parseTagged 'm' m).map (.byKey false)
   | ["byip", a] => (parseTagged 'a' a).map (.byKey true)
@@ -122,6 +131,11 @@ def event (op : Op) (impl : String) : Ev :=
   | .setKey id _ _, ["notfound"] => .missing id
   | .delete id, ["ok"] => .deleted id
   | .delete id, ["notfound"] => .missing id
+  -- a parked TerminateSession leaves the session in every map: it stays live for the monitor until the second phase
+  -- (or the whole call, when there was nothing to release) answered ok
+  | .tpark id, ["ok"] => .deleted id
+  | .tpark id, ["notfound"] => .missing id
+  | .tresume id, ["ok"] => .deleted id
   | .get id, ["none"] => .got id none
   | .get id, _ => .got id (some ((parseRec toks).getD garbage))
   | .byKey slot v, ["none"] => .byKey slot v .none
